@@ -179,4 +179,16 @@ CHECKS = {
              "containing a rotation, a checkpoint or a transaction group carrying several requests",
         assumptions=["schedules of the WAL writer loop are sampled (recorded, not controlled)", "process-crash model"],
     ),
+    "C27": dict(
+        test="TestC27", level="exploration", shards=16,
+        tiers=dict(quick=dict(checks=300, timeout=600), thorough=dict(checks=30000, timeout=3000)),
+        rule="rapid datasets of 1-6 buckets sharing a schema (1-5 columns over all 11 wire types, optional Nanoseconds, "
+             "lengths 0-2000 incl. zero, raw bit patterns; 10%: one bucket with the same names but a different type) "
+             "through NewNumpyDataset -> NewNumpyMultiDataset/Append -> msgpack Marshal/Unmarshal -> ToColumnSeriesMap "
+             "(write-request side) or MultiQueryResponse.ToColumnSeriesMap (client side); oracle: same buckets, names, "
+             "order, Go types, bytes (different-type class: clean error or faithful); non-trivial = >=2 buckets of "
+             "different lengths",
+        assumptions=["byte comparison with the harness's own little-endian encoder"],
+        technique="round-trip property-based testing",
+    ),
 }
